@@ -18,6 +18,7 @@ from collections import deque
 from typing import Any, Dict, List
 
 from .. import actors, core_check, gen, pipeline, report, tla
+from ..core_check import budget_map
 from .core import NPROC
 
 ASSUMPTIONS = [
@@ -138,8 +139,8 @@ def run(prop: str, tier: str, seed: int) -> int:
         import concurrent.futures as cf
 
         with cf.ProcessPoolExecutor(max_workers=NPROC) as ex:
-            results = list(ex.map(replay_chunk, [{"paths": c} for c in chunks if c]))
-            wresults = list(ex.map(replay_walks, [{"walks": c} for c in wchunks if c]))
+            results = budget_map(ex, replay_chunk, [{"paths": c} for c in chunks if c])
+            wresults = budget_map(ex, replay_walks, [{"walks": c} for c in wchunks if c])
         replayed = sum(r["replayed"] for r in results) + sum(r["steps"] for r in wresults)
         bad = [b for r in results for b in r["bad"]]
         seen_w = set()
